@@ -225,22 +225,76 @@ def raw_mutex_ops(f):
     return out
 
 
+def _bracketed_raw_sections(f, ops):
+    """True when every raw acquisition in `ops` is released by a raw unlock() of the same mutex on every path before
+    anything that can throw or leave the function runs in between (`if (m.try_lock_for(d)) m.unlock();`): such a
+    section cannot leak the mutex, which is all the RAII rule is there to guarantee"""
+    acq = [(st, txt) for st, txt in ops if re.match(r"raw (lock|try_lock\w*|lock_shared|try_lock_shared\w*)\(\)", txt)]
+    rel = [(st, txt) for st, txt in ops if re.match(r"raw unlock(_shared)?\(\)", txt)]
+    if not acq or len(acq) + len(rel) != len(ops):
+        return False
+    relpos = {}
+    for st, _t in rel:
+        p_ = f.pos_of(st)
+        if p_ is None:
+            return False
+        relpos[tuple(p_)] = path(f, f.s(st["obj"]))
+    for st, txt in acq:
+        m = path(f, f.s(st["obj"]))
+        start = f.pos_of(st)
+        if start is None or m is None:
+            return False
+        blocking = txt.startswith(("raw lock()", "raw lock_shared()"))
+        seen, work = set(), [(start[0], start[1] + 1)]
+        while work:
+            b, i = work.pop()
+            blk = f.blocks[b]
+            stop = False
+            while i < len(blk.elems):
+                if relpos.get((b, i)) == m:
+                    stop = True
+                    break
+                e = blk.elems[i]
+                if e["k"] == "S":
+                    x = f.stmts[e["s"]]
+                    c = x.get("callee") if x["k"] in CALLS or x["k"] in CTORS else None
+                    if c and not c.get("noexcept") and c.get("fq") not in ("std::move", "std::forward") and \
+                            not (x["k"] == "CXXMemberCallExpr" and is_mutex_type((f.s(x["obj"]) or {}).get("t", ""))):
+                        return False
+                i += 1
+            if stop:
+                continue
+            if b == f.exit and blocking:
+                return False
+            for s_ in blk.succs:
+                if s_ is not None and s_ not in seen:
+                    seen.add(s_)
+                    work.append((s_, 0))
+    return True
+
+
 def raii_only(ctx, rid, files, floor=20):
     ctx.rule(rid, "no raw mutex lock()/unlock()/try_lock(), adopt_lock or lock.release(): every acquisition "
              "is an RAII object and is therefore released on every exit, including unwinding", floor=floor)
     fxb, _ = ctx.fx
-    hit = False
+    hit, quiet = False, False
     for f in fxb.functions():
-        if f.qname.startswith("fx::raw_mutex_user") and raw_mutex_ops(f):
+        if f.qname == "fx::raw_mutex_user::f" and raw_mutex_ops(f) and not _bracketed_raw_sections(f, raw_mutex_ops(f)):
             hit = True
-    if not hit:
-        ctx.broken("positive control fx::raw_mutex_user not reported by the raw-mutex rule")
+        if f.qname == "fx::raw_mutex_user::probe" and raw_mutex_ops(f) and _bracketed_raw_sections(f, raw_mutex_ops(f)):
+            quiet = True
+    if not (hit and quiet):
+        ctx.broken("controls fx::raw_mutex_user: f() must be reported and probe() accepted by the raw-mutex rule (%s, %s)" % (hit, quiet))
     n = 0
     for f in ctx.fb.functions():
         if not in_files(f, files):
             continue
         ops = raw_mutex_ops(f)
         n += 1
+        if ops and _bracketed_raw_sections(f, ops):
+            ctx.ob(rid, True, f.where, "%s: raw mutex sections are released on every path with nothing that can throw in "
+                   "between" % f.name, fn=f.label, inst=f.qname)
+            continue
         if not ops:
             ctx.ob(rid, True, f.where, "%s contains no raw mutex operation" % f.name, fn=f.label, inst=f.qname)
         for st, txt in ops:
@@ -691,7 +745,7 @@ def try_paths_nonblocking(ctx, rid, classes):
 RCU = "gmlc::libguarded::rcu_list"
 
 
-def rcu_writer_guard(ctx, rid, floor=20):
+def rcu_writer_guard(ctx, rid, floor=20, loads=True):
     """every store to m_head / m_tail / node::next / node::back, every load of them made by a function that also
     stores (a writer's read-modify-write of the structure must not be split by another writer) and every access
     to node::deleted in rcu_list's member functions happens with m_write_mutex
@@ -708,7 +762,7 @@ def rcu_writer_guard(ctx, rid, floor=20):
         la = eng.locks(f)
         mutator = any(op["op"] in ("store", "rmw", "cas") and re.search(r"::node \*>$", op["objtype"]) for op in atomic_ops(f))
         for op in atomic_ops(f):
-            if op["op"] not in ("store", "rmw", "cas") and not mutator:
+            if op["op"] not in ("store", "rmw", "cas") and not (mutator and loads):
                 continue        # readers (begin, iterators) follow the links without the mutex
             if not re.search(r"::node \*>$", op["objtype"]):
                 continue
@@ -882,3 +936,50 @@ def init_order(ctx, rid, classes, floor=1):
                            "" if not late else "it reads %s, which is initialised later (declaration order)" % late,
                            fn=f.label, inst=f.qname)
     return n
+
+
+# ------------------------------------------------ lookup results are checked
+def find_results_checked(ctx, rid, functions, floor=1):
+    """A8: the iterator returned by a lookup (map.find, std::find_if, ...) is dereferenced only where a comparison with
+    end() came out 'different' (the element exists)"""
+    from .typestate import unchecked_find_deref, FIND_MEMBERS, FIND_ALGOS
+    ctx.rule(rid, "an iterator returned by find()/find_if() is dereferenced only after it was compared unequal to end()", floor=floor)
+    fxb, _ = ctx.fx
+    ctl = [f for f in fxb.functions() if f.qname.startswith("fx::unchecked_find") and unchecked_find_deref(f)]
+    names = sorted({f.name for f in ctl})
+    if names != ["get"]:
+        ctx.broken("controls fx::unchecked_find: the lookup-result rule must report get() and not get_checked(); it reports %s" % names)
+    for f in functions:
+        bad = unchecked_find_deref(f)
+        n = 0
+        for st in f.stmts.values():
+            if st["k"] == "DeclStmt":
+                for d in st["decls"]:
+                    e = unwrap(f, f.s(d.get("init"))) if d.get("init") else None
+                    while e is not None and e["k"] in CTORS and len(e["args"]) == 1:
+                        e = unwrap(f, f.s(e["args"][0]))
+                    if e is not None and ((e["k"] == "CXXMemberCallExpr" and (e.get("callee") or {}).get("name") in FIND_MEMBERS) or
+                                          (e["k"] == "CallExpr" and callee_fq(e) in FIND_ALGOS)):
+                        n += 1
+                        mine = [b for b in bad if b[2]["id"] == e["id"]]
+                        ctx.ob(rid, not mine, f.loc(mine[0][0]) if mine else f.loc(st),
+                               "the result '%s' of the lookup in %s is dereferenced only where it is known to differ from end()" % (d["name"], f.name),
+                               "" if not mine else "'%s' is dereferenced here without a dominating comparison with end(): when the key "
+                               "is absent this reads through the past-the-end iterator" % d["name"], fn=f.label, inst=f.qname)
+
+
+def no_repeated_moves(ctx, rid, functions, floor=1):
+    """a value that has to serve every iteration of a loop is not moved / forwarded away inside it"""
+    from .typestate import moves_repeated
+    ctx.rule(rid, "no object that outlives a loop is moved from (std::move / rvalue std::forward) inside the loop", floor=floor)
+    fxb, _ = ctx.fx
+    if not any(f.qname == "fx::move_in_loop::broadcast" and moves_repeated(f) for f in fxb.functions()) or \
+            any(f.qname == "fx::move_in_loop::drain" and moves_repeated(f) for f in fxb.functions()):
+        ctx.broken("controls fx::move_in_loop: broadcast() must be reported and drain() must not")
+    for f in functions:
+        if not f.loops():
+            continue
+        bad = moves_repeated(f)
+        ctx.ob(rid, not bad, f.loc(bad[0][0]) if bad else f.where, "%s moves nothing inside a loop that a later iteration still needs" % f.name,
+               "" if not bad else "%s is moved from on every iteration: from the second iteration on the moved-from (empty) value "
+               "is used" % bad[0][1], fn=f.label, inst=f.qname)
